@@ -110,12 +110,16 @@ PROPS = {
             {"kind": "verus", "unit": "seq"},
             {"kind": "verus", "unit": "comb"},
             {"kind": "verus", "unit": "seqsearch"},
+            {"kind": "verus", "unit": "rangector"},
+            {"kind": "verus", "unit": "idx"},
+            {"kind": "verus", "unit": "sequpd"},
         ],
         "unreached": [
-            "XSequence::{chain, value_to_idx}, get on Chain (partition_point), len on Chain/Map/Zip (macros over dyn Any downcasts, Cow, iterator chains: outside Verus' dialect; BigInt promotion closure makes them intractable for CBMC)",
-            "every native builtin body (pop/insert/set/swap/...), Map/Zip representations (call the evaluator), include.rs",
+            "XSequence::chain, get on Chain (partition_point), len on Chain/Map/Zip (macros over dyn Any downcasts, Cow, iterator chains: outside Verus' dialect; BigInt promotion closure makes them intractable for CBMC)",
+            "of push / rpush / insert / pop / set / swap the prefix before the extracted statements (argument evaluation, downcast, the finiteness test and the allocation pre-flight); every other native builtin body; Map/Zip representations (call the evaluator); include.rs",
         ],
-        "assumptions": ["LazyBigint operations by the contracts unit V-int proves (canonical representation of the mathematical result)"],
+        "assumptions": ["LazyBigint operations by the contracts unit V-int proves (canonical representation of the mathematical result)",
+                        "V-sequpd / V-seqsearch: the argument sequence is finite and holds values; XSequence::iter yields the elements in index order; std take / skip / collect / enumerate / zip / size_hint by their documented meaning (trusted iterator model)"],
     },
     "C16": {
         "level": "proof",
@@ -229,9 +233,9 @@ CLAIMS = {
     },
     "C15": {
         "engine": "vx+verus",
-        "technique": "contract-based deductive verification: Verus contracts on the match arms of XSequence::{len, get} for Range and Slice and on the body of XSequence::slice, extracted from src/builtin/sequence.rs on every run",
-        "text": "Narrow: for the lazy Range representation, len is proved overflow-free and equal to the number of elements the range denotes for every (start, end, step) the constructor's guard admits, and get(i) is proved to be start + i*step as an exact integer (the count characterisation is a proved lemma); XSequence::slice (after the downcast) is proved to return None exactly for the whole input, Empty exactly for an empty window, and otherwise a Slice that satisfies the representation invariant and addresses the original source of a sliced input (or nests when the absolute bounds are not representable); the index a Slice hands to its source is idx + start or an error when not representable.",
-        "note": "Index arithmetic of one representation only; slicing/chaining composition, index normalisation and every native are listed as unreached in the evidence. LazyBigint by V-int's contracts.",
+        "technique": "contract-based deductive verification: Verus contracts on the match arms of XSequence::{len, get} for Range and Slice, on XSequence::{slice, value_to_idx, array}, on the guard of the range builtin, on the copying updates push/rpush/insert/pop/set/swap (with Vec::try_extend) and on the scan loops of take_while / skip_until, all extracted from src/builtin/sequence.rs on every run",
+        "text": "Narrow: for the lazy Range representation, len is proved overflow-free and equal to the number of elements the range denotes for every (start, end, step) the constructor's guard admits, and get(i) is proved to be start + i*step as an exact integer (the count characterisation is a proved lemma); XSequence::slice (after the downcast) is proved to return None exactly for the whole input, Empty exactly for an empty window, and otherwise a Slice that satisfies the representation invariant and addresses the original source of a sliced input (or nests when the absolute bounds are not representable); the index a Slice hands to its source is idx + start or an error when not representable. The range builtin is proved to build a Range exactly for operands that satisfy that representation invariant (Empty for ranges without elements, an error value for step 0); index normalisation (value_to_idx) is proved to accept exactly -L <= i < L and to count negative indices from the end; push / rpush / insert / pop / set / swap are proved to return a new sequence whose element list is what the same operation gives on the plain list of the argument's elements; take_while / skip_until cut at the first element that fails / satisfies the predicate.",
+        "note": "Mechanisms, not the whole property: chaining, Map/Zip, the remaining natives and the library functions written in the xray language are listed as unreached in the evidence. LazyBigint by V-int's contracts; std iterators by their documented meaning.",
     },
     "C16": {
         "engine": "vx+verus",
